@@ -14,17 +14,18 @@ import (
 )
 
 type Options struct {
-	MaxDepth   int
-	MaxWidth   int
-	Fragments  int  // number of named fragments to try
-	Ops        int  // number of operations (1..)
-	DirPct     int  // percent chance of a @skip/@include on a selection
-	VarDirPct  int  // of those, percent that are variable-driven
-	DupPct     int  // percent chance to repeat a selection (duplicate response key)
-	ArgVarPct  int  // percent chance an argument value uses a variable
-	Mutation   bool // allow mutation operations
-	Typename   bool // allow __typename
-	CustomDirs bool // allow the schema's custom directives
+	MaxDepth     int
+	MaxWidth     int
+	Fragments    int  // number of named fragments to try
+	Ops          int  // number of operations (1..)
+	DirPct       int  // percent chance of a @skip/@include on a selection
+	VarDirPct    int  // of those, percent that are variable-driven
+	DupPct       int  // percent chance to repeat a selection (duplicate response key)
+	ArgVarPct    int  // percent chance an argument value uses a variable
+	Mutation     bool // allow mutation operations
+	Typename     bool // allow __typename
+	CustomDirs   bool // allow the schema's custom directives
+	OnlyMutation bool // every operation is a mutation (when the schema has a mutation root)
 }
 
 func DefaultOptions(r *core.RNG) Options {
@@ -97,7 +98,7 @@ func Gen(r *core.RNG, s *model.Schema, o Options) *Doc {
 	for i := 0; i < nops; i++ {
 		op := &nast.Operation{Op: "query"}
 		root := s.Query
-		if o.Mutation && s.Mutation != "" && r.Chance(25) {
+		if s.Mutation != "" && (o.OnlyMutation || (o.Mutation && r.Chance(25))) {
 			op.Op = "mutation"
 			root = s.Mutation
 		}
